@@ -47,6 +47,12 @@ class CUBO(CallableModel):
         log_w_rescaled = torch.exp(log_w - log_max) ** self.n
         return torch.log(log_w_rescaled.mean()) / self.n + log_max
 
+    def __call__(self, *args, **kwargs) -> torch.Tensor:
+        # a stochastic objective is never answered from the CallableModel cache:
+        # every request draws fresh samples with the requested sample shape
+        self.lp_needs_update = True
+        return super().__call__(*args, **kwargs)
+
     def handle_parameter_changed(self, variable, index, event):
         pass
 
